@@ -78,7 +78,7 @@ def batches(tier):
 # ----------------------------------------------------------------------------
 
 CLOUD_CLASSES = ["random", "interior", "near_flat", "skewed", "simplex", "box", "clustered",
-                 "flat", "small_units", "prism"]
+                 "flat", "small_units", "prism", "many"]
 
 
 def make_cloud(rng: PlanRng, dim, cls):
@@ -122,6 +122,22 @@ def make_cloud(rng: PlanRng, dim, cls):
             half = len(Pm) // 2
             Pm[half:, :dim - 1] = Pm[:half, :dim - 1]
         return Pm + sig(rng.g.uniform(-2, 2, dim), 3)
+    elif cls == "many" and dim >= 4:
+        Pm = rng.g.normal(size=(m, dim))        # (a 4-D triangulation of 3000 points is too slow)
+    elif cls == "many":
+        # thousands of points, most of them on the boundary of a strongly skewed hull (a dense
+        # measurement cloud): anything that thins the cloud out before triangulating shows here
+        mm = rng.integers(2100, 3200)
+        U = rng.g.normal(size=(mm, dim))
+        U /= np.linalg.norm(U, axis=1, keepdims=True)
+        U[: mm // 3] *= rng.g.uniform(0.0, 1.0, (mm // 3, 1))          # some interior points
+        Pm = U * np.array([40.0, 0.4, 3.0, 1.0])[:dim]
+        if dim >= 2:
+            th = float(rng.g.uniform(0, np.pi))
+            R2 = np.eye(dim)
+            R2[:2, :2] = [[np.cos(th), -np.sin(th)], [np.sin(th), np.cos(th)]]
+            Pm = Pm @ R2.T
+        return sig(Pm + rng.g.uniform(-2, 2, dim))
     elif cls == "small_units":
         # an ordinary cloud expressed in small units (simplex volumes around 1e-9..1e-6, some
         # cells much smaller than others): absolute tolerances in the code show up here
@@ -215,7 +231,7 @@ def generate(rs, mode, tier, index):
     dim = rng.integers(2, 4)
     clouds = {}
     for j in range(rng.integers(1, 3)):
-        cls = rng.choice(CLOUD_CLASSES, p=[3, 2, 2, 2, 1, 1, 1, 1, 2, 1.5])
+        cls = rng.choice(CLOUD_CLASSES, p=[3, 2, 2, 2, 1, 1, 1, 1, 2, 1.5, 0.4])
         if mode == "uniform" and j == 0:
             # the uniformity batch walks through the classes so that every invocation tests each
             vol = [c for c in CLOUD_CLASSES if c != "flat"]
